@@ -9,7 +9,9 @@ package c16
 // error or an overflow abort under P counts as well: a hook cannot be "rejected").
 
 import (
+	"encoding/hex"
 	"fmt"
+	"math/big"
 	"os"
 	"sort"
 	"strings"
@@ -21,6 +23,8 @@ import (
 	sdk "github.com/cosmos/cosmos-sdk/types"
 	distrtypes "github.com/cosmos/cosmos-sdk/x/distribution/types"
 	"pgregory.net/rapid"
+
+	htlctypes "mods.irisnet.org/modules/htlc/types"
 
 	"verifharness/chain"
 	"verifharness/gen"
@@ -67,6 +71,9 @@ func prepared() *chain.Case {
 		E := gen.Env()
 		c := E.NewCase()
 		gov := E.Gov.String()
+		// htlc: the authority lists two HTLT assets (the baseline of the htlc module in this machine); their supply records
+		// appear at the next begin-block
+		must(c, "htlc baseline assets", baselineSpec("htlc").updateMsg(E, gov))
 		// tokens: tka (scale 6, U0), tkb (scale 0, U1, with an ERC20 contract deployed while a beacon was configured)
 		mustOp(c, cOp{M: "tok.issue", W: 0, D: "tka", K: 6, A: "1000000", B: "100000000", F: true})
 		mustOp(c, cOp{M: "tok.issue", W: 1, D: "tkb", K: 0, A: "1000000", B: "100000000", F: true})
@@ -95,6 +102,20 @@ func prepared() *chain.Case {
 		mustOp(c, cOp{M: "htlc.create", W: 0, V: 1, D: "stake", A: "1000", B: "50", K: 0})
 		mustOp(c, cOp{M: "htlc.create", W: 1, V: 2, D: "btc", A: "77", B: "53", K: 1})
 		mustOp(c, cOp{M: "htlc.create", W: 2, V: 0, D: "stake", A: "5", B: "34560", K: 2})
+		// HTLT supply in flight for both assets: completed incoming swaps (current > 0, time-limited current > 0), open incoming
+		// swaps (incoming > 0) that expire shortly after the preparation ends or much later, one open outgoing swap
+		claimed := func(asset, amount string, to, secret int) {
+			r := must(c, "incoming HTLT", resolve(c, cOp{M: "htlc.create", V: to, D: "in", E: asset, A: amount, B: "50", K: secret, F: true}))
+			id := r.Resp.(*htlctypes.MsgCreateHTLCResponse).Id
+			must(c, "claim incoming HTLT", &htlctypes.MsgClaimHTLC{Sender: E.Users[to].Addr.String(), Id: id, Secret: hex.EncodeToString(secretOf(secret))})
+		}
+		claimed("0", "5000", 0, 3)
+		claimed("1", "3000", 1, 3)
+		mustOp(c, cOp{M: "htlc.create", V: 1, D: "in", E: "0", A: "700", B: "52", K: 4, F: true})
+		mustOp(c, cOp{M: "htlc.create", V: 2, D: "in", E: "1", A: "200", B: "55", K: 4, F: true})
+		mustOp(c, cOp{M: "htlc.create", V: 0, D: "in", E: "0", A: "41", B: "34560", K: 5, F: true})
+		mustOp(c, cOp{M: "htlc.create", V: 0, D: "in", E: "1", A: "17", B: "34560", K: 5, F: true})
+		mustOp(c, cOp{M: "htlc.create", W: 0, D: "out", E: "0", A: "1000", B: "54", K: 6, F: true})
 		// service: svc0 defined by U0, bound by U1 and U2 (QoS 2), one repeated and one single call by U0
 		mustOp(c, cOp{M: "svc.define", W: 0, D: "svc0"})
 		mustOp(c, cOp{M: "svc.bind", W: 1, D: "svc0", E: "stake", A: "1000000", B: "2", N: 2})
@@ -118,8 +139,13 @@ func prepared() *chain.Case {
 		}
 		mustOp(c, cOp{M: "svc.call", W: 0, D: "svc0", E: "stake", K: 1, A: "10", N: 2})
 		for _, mod := range modules {
-			if got, want := storedNorm(c, mod), defaultSpec(mod).norm(E); got != want {
-				panic(fmt.Sprintf("C16 preparation: %s parameters are not the defaults: %s != %s", mod, got, want))
+			if got, want := storedNorm(c, mod), baselineSpec(mod).norm(E); got != want {
+				panic(fmt.Sprintf("C16 preparation: %s parameters are not the baseline: %s != %s", mod, got, want))
+			}
+		}
+		for _, a := range baselineSpec("htlc").HTLC.Assets {
+			if sv := supplyOf(c, a.Denom); !sv.found || sv.cur.Sign() <= 0 || sv.inc.Sign() <= 0 {
+				panic(fmt.Sprintf("C16 preparation: asset %s has no current/incoming supply: %+v", a.Denom, sv))
 			}
 		}
 		prepCase = c
@@ -235,6 +261,11 @@ func (m *dMachine) Next(t *rapid.T) dOp {
 	}
 	mod := rapid.SampledFrom(modules).Draw(t, "module")
 	p := genSpec(t, mod, rapid.SampledFrom([]int{0, 8, 8, 20}).Draw(t, "wild"))
+	relTarget := -1
+	if mod == "htlc" && rapid.IntRange(0, 9).Draw(t, "relative") < 6 {
+		// limits, time-based limits and periods placed relative to the live supply records of the existing assets
+		p.HTLC, relTarget = genHTLCRelative(t, m.c)
+	}
 	op := dOp{Kind: "diff", P: &p}
 	if mod == "htlc" || rapid.Bool().Draw(t, "lead") {
 		op.Ops = append(op.Ops, cOp{M: "block", N: 1, A: fmt.Sprint(int64(5 * time.Second))}) // asset supplies appear at the next begin-block
@@ -251,6 +282,13 @@ func (m *dMachine) Next(t *rapid.T) dOp {
 		}
 	})
 	op.Ops = append(op.Ops, rapid.SliceOfN(one, 1, 10).Draw(t, "seq")...)
+	if relTarget >= 0 { // aim most HTLT creations at the asset whose limits were edited
+		for i := range op.Ops {
+			if o := &op.Ops[i]; o.M == "htlc.create" && o.F && rapid.IntRange(0, 3).Draw(t, "aim") > 0 {
+				o.E = fmt.Sprint(relTarget)
+			}
+		}
+	}
 	return op
 }
 
@@ -295,8 +333,12 @@ func (m *dMachine) Apply(op dOp) error {
 	if got := storedNorm(B, mod); got != P.norm(E) {
 		return pbt.Failf("C16/stored-differs-from-submitted", "%s params read back as %s, submitted %s", mod, got, P.norm(E))
 	}
-	dflt := defaultSpec(mod)
+	dflt := baselineSpec(mod) // the defaults, except htlc: the prepared two-asset list
 	nonDefault := P.norm(E) != dflt.norm(E)
+	tight := map[string]string{} // htlc asset denom -> which limit of P lies below what the supply record already holds
+	if mod == "htlc" {
+		tight = m.htlcShapes(B, P)
+	}
 	if nonDefault {
 		m.seen["P/"+mod+"/accepted-nondefault"]++
 	} else {
@@ -323,6 +365,9 @@ func (m *dMachine) Apply(op dOp) error {
 		}
 		if rD.outcome == chain.Panicked {
 			m.seen["default/panicked/"+ty]++ // the operation aborts under the defaults on this state: nothing is demanded of the run under P
+		}
+		if nonDefault && mod == "htlc" && len(tight) > 0 {
+			m.htlcOpClasses(B, o, tight, rQ)
 		}
 		dOrdinary := rD.outcome == chain.OK || rD.outcome == chain.Rejected
 		if o.M == "block" {
@@ -375,6 +420,84 @@ func (m *dMachine) Apply(op dOp) error {
 	return nil
 }
 
+// htlcShapes classifies an installed htlc parameter set against the supply records of the state it was installed on.
+func (m *dMachine) htlcShapes(B *chain.Case, P paramSpec) map[string]string {
+	tight := map[string]string{}
+	listed := map[string]bool{}
+	for _, a := range P.HTLC.Assets {
+		listed[a.Denom] = true
+		sv := supplyOf(B, a.Denom)
+		if !sv.found {
+			continue
+		}
+		limit, tl := gen.BigOf(a.Limit.norm()), gen.BigOf(a.TimeLimit.norm())
+		tot, used := new(big.Int).Add(sv.cur, sv.inc), new(big.Int).Add(sv.tlc, sv.inc)
+		switch limit.Cmp(tot) {
+		case -1:
+			m.seen["htlc-shape/limit-below-supply"]++
+			tight[a.Denom] = "limit-below-supply"
+			if limit.Cmp(sv.cur) < 0 {
+				m.seen["htlc-shape/limit-below-current"]++
+			}
+		case 0:
+			m.seen["htlc-shape/limit-equals-supply"]++
+		}
+		if a.TimeLimited {
+			switch tl.Cmp(used) {
+			case -1:
+				m.seen["htlc-shape/time-limit-below-used"]++
+				if tight[a.Denom] == "" {
+					tight[a.Denom] = "time-limit-below-used"
+				} else {
+					tight[a.Denom] = "both-limits-below"
+				}
+			case 0:
+				m.seen["htlc-shape/time-limit-equals-used"]++
+			}
+			if a.Period <= sv.elapsed+int64(5*time.Second) {
+				m.seen["htlc-shape/period-within-elapsed"]++
+			}
+		}
+		if !a.Active && (sv.inc.Sign() > 0 || sv.out.Sign() > 0) {
+			m.seen["htlc-shape/deactivated-with-open-swaps"]++
+		}
+	}
+	for _, a := range baselineSpec("htlc").HTLC.Assets {
+		if sv := supplyOf(B, a.Denom); !listed[a.Denom] && sv.found && (sv.inc.Sign() > 0 || sv.out.Sign() > 0) {
+			m.seen["htlc-shape/removed-with-open-swaps"]++
+		}
+	}
+	return tight
+}
+
+// htlcOpClasses counts the operations that were compared under a parameter set whose limits lie below the stored supply.
+func (m *dMachine) htlcOpClasses(B *chain.Case, o cOp, tight map[string]string, rQ execResult) {
+	switch {
+	case o.M == "htlc.create" && o.F:
+		msg, ok := resolve(B, o).(*htlctypes.MsgCreateHTLC)
+		if !ok || len(msg.Amount) != 1 {
+			return
+		}
+		if why := tight[msg.Amount[0].Denom]; why != "" {
+			dir := "outgoing"
+			if o.D == "in" {
+				dir = "incoming"
+			}
+			m.seen["htlc-op/"+dir+"-create-vs-"+why]++
+			if dir == "incoming" && rQ.outcome == chain.Rejected {
+				m.seen["htlc-op/incoming-create-refused-by-tight-limit"]++
+			}
+		}
+	case o.M == "htlc.claim":
+		m.seen["htlc-op/claim-under-tight-limit"]++
+	case o.M == "block":
+		m.seen["htlc-op/blocks-under-tight-limit"]++
+		if hasEvent(rQ.events, "refund_htlc") {
+			m.seen["htlc-op/expiry-refund-under-tight-limit"]++
+		}
+	}
+}
+
 func hasTransferClaim(evs []abci.Event) bool {
 	for _, v := range chain.EventAttrs(evs, "claim_htlc", "transfer") {
 		if v == "true" {
@@ -395,7 +518,7 @@ func (m *dMachine) Classify() (bool, []string) {
 	return m.arith, cl
 }
 
-const diffRule = "rapid state machine on a prepared state (coinswap pools, farm pools with farmers, open HTLCs near expiry, service definition/bindings/running repeated context with active requests, tokens incl. one ERC20 pair) that evolves under default parameters; differential step = (module, parameter set P from the message-space grids, sequence of 1-11 symbolic operations over every Msg method of coinswap/farm/htlc/service/token(v1+v1beta1) and block runs of 1-61 blocks): P installed by the authority on a branch, every operation run on a sub-branch with the defaults restored and on the branch under P, outcomes compared; non-trivial = history with an accepted non-default P under which at least one operation that computes with the parameters (swap/unilateral fee, pool creation fee and tax, farm creation fee and tax, HTLT limits, service deposit/tax/timeout, slash at expiry, token issue/mint fee) ran to success or abort; distinct by SHA-256 of the op list"
+const diffRule = "rapid state machine on a prepared state (coinswap pools, farm pools with farmers, open plain HTLCs near expiry, two listed HTLT assets with completed and open incoming swaps and an open outgoing swap (current, incoming, outgoing and time-limited supply all > 0), service definition/bindings/running repeated context with active requests, tokens incl. one ERC20 pair) that evolves under default parameters; differential step = (module, parameter set P from the message-space grids — for htlc additionally edits of the live asset list with Limit / TimeBasedLimit / TimePeriod placed just below, at and just above the stored current+incoming, time-limited and elapsed values, deactivation, removal —, sequence of 1-11 symbolic operations over every Msg method of coinswap/farm/htlc/service/token(v1+v1beta1) and block runs of 1-61 blocks): P installed by the authority on a branch, every operation run on a sub-branch with the baseline (module defaults; for htlc the prepared asset list) restored and on the branch under P, outcomes compared; non-trivial = history with an accepted non-default P under which at least one operation that computes with the parameters (swap/unilateral fee, pool creation fee and tax, farm creation fee and tax, HTLT limits, service deposit/tax/timeout, slash at expiry, token issue/mint fee) ran to success or abort; distinct by SHA-256 of the op list"
 
 func TestC16Differential(t *testing.T) {
 	missing, stale, total := catalogueGaps()
